@@ -118,7 +118,7 @@ def src_atom(a, rng):
     if a[0] == "qs":
         return scss_string_literal(a[1], rng)
     t = a[1]
-    if re.fullmatch(r"[a-z][a-z0-9-]*|(0|[1-9][0-9]*)(px|em|%)?|url\([a-z/.]+\)|var\(--[a-z]+\)", t) and t != "":
+    if re.fullmatch(r"[a-z][a-z0-9-]*|[a-z]\\[;}][a-z]?|(0|[1-9][0-9]*)(px|em|%)?|url\([a-z/.]+\)|var\(--[a-z]+\)", t) and t != "":
         return t
     return "unquote(" + scss_string_literal(t, rng) + ")"
 
@@ -297,8 +297,9 @@ def _expected_tree(nodes):
 # ---------------------------------------------------------------------------------------------
 
 PROPS = ["b", "c", "k", "width", "margin-top", "x-y"]
-RAW_TOKENS = ["c", "auto", "10px", "2em", "url(a/b.png)", "var(--x)", "solid", "100%", "a-b", "x1", "0", "12"]
-RAW_ALPHA = list("abz09 -_./") + ["\n", " ", "é", "✓"]
+RAW_TOKENS = ["c", "auto", "10px", "2em", "url(a/b.png)", "var(--x)", "solid", "100%", "a-b", "x1", "0", "12", "c\\;", "c\\;",
+              "a\\}b"]
+RAW_ALPHA = list("abz09 -_./;;") + ["\n", " ", "é", "✓"]
 Q_ALPHA = (list("afgAF09xyz") + [" ", " ", "\t", '"', '"', "'", "'", "\\", "\n", "\r", "\x0c", "\x01", "\x08", "\x0b",
                                   "\x0e", "\x1f", "\x7f", "{", "}", ";", "/", "*", "#", "$", "&", "%", "@", ":", ",",
                                   "é", "✓", "\U0001F600", "\xa0", " "])
@@ -950,7 +951,10 @@ def _p_expr(rng, depth=0):
     if r < 0.7:
         return rng.choice(['"#{%s}"' % _p_expr(rng, depth + 1), "#{%s}" % _p_expr(rng, depth + 1),
                            'quote(%s)' % rng.choice(["foo", '"a"']), "unquote(%s)" % rng.choice(['"a b"', '"é"', "'q'", "foo"]),
-                           'str-insert("abc", %s, 2)' % rng.choice(P_STRS[:4]), '"a" + "%s"' % rng.choice(["b", " c", "é"]),
+                           'str-insert("abc", %s, 2)' % rng.choice(P_STRS[:4]),
+                           "%s + %s" % (rng.choice(["white", "#ff0000", "aquamarine", "$c", "#f00", "rgba(1, 2, 3, 0.5)"]),
+                                        rng.choice(["-fg", '""', "x", '"-q"', "null"])),
+                           'str-length(%s + %s)' % (rng.choice(["white", "#ff0000", "aquamarine", "$c"]), rng.choice(["-fg", '""', "x"])), '"a" + "%s"' % rng.choice(["b", " c", "é"]),
                            "to-upper-case($s)", "str-length(\"#{%s}\")" % _p_expr(rng, depth + 1),
                            "to-lower-case(%s)" % rng.choice(P_STRS)])
     if r < 0.85:
@@ -966,6 +970,11 @@ def _p_expr(rng, depth=0):
 def _p_arith(rng):
     a, b = rng.choice(P_NUMS), rng.choice(P_NUMS)
     u = rng.choice(P_UNITS)
+    if rng.random() < 0.2:
+        # magnitudes below the printing precision (float noise), both signs
+        return rng.choice(["0.3 - 0.1 - 0.2", "(0.3 - 0.1 - 0.2) * 1%s" % (u or "px"), "0.1 + 0.2 - 0.3", "-1e-11%s" % u, "1e-11%s" % u,
+                           "-0.00000000004%s" % u, "0.00000000004%s" % u, "-0.0", "math.div(-1%s, 1e12)" % u, "0.3%s - 0.1 - 0.2" % u,
+                           "-0.00000000006%s" % u, "1 - 0.9 - 0.1"])
     return rng.choice(["%s%s + %s%s" % (a, u, b, u), "%s%s - %s%s" % (a, u, b, u), "%s%s * %s" % (a, u, b),
                        "math.div(%s%s, %s)" % (a, u, b), "-%s%s" % (a, u), "(%s + %s) * 1%s" % (a, b, u or "px"),
                        "%s %% %s" % (a, b)])
@@ -980,6 +989,9 @@ def _p_decl(rng, ind):
         return pad + "font: { family: %s; size: %s; }" % (rng.choice(P_STRS), _p_num(rng))
     if r < 0.2:
         return pad + "--%s: %s;" % (rng.choice(["v", "w"]), rng.choice(["#{$n}", "1px", "{a: b}", "#{$c}", " x  y", '"q"']))
+    if r < 0.24:
+        # a value whose last character is an (escaped) ';'
+        return pad + "%s: %s" % (rng.choice(["sep", "b"]), rng.choice(["c\\;", "x c\\;", "a, c\\;"])) + rng.choice([";", ""])
     imp = " !important" if rng.random() < 0.05 else ""
     return pad + "%s: %s%s;" % (rng.choice(P_PROPS), _p_expr(rng), imp)
 
